@@ -21,6 +21,7 @@ theorem new_eq (p : Nat) :
       if p = 0 then .err .InvalidParameter
       else if p * 8 ≤ isizeMax then .ok (fresh p) else .panic := by
   unfold new
+  try simp only [gen_helper]
   rw [SimpleMovingAverage.new_eq, MeanAbsoluteDeviation.new_eq]
   by_cases h0 : p = 0
   · simp [h0, bind, Res.bind]
